@@ -13,6 +13,8 @@ mod c14;
 mod c18;
 #[cfg(kani)]
 mod c21;
+#[cfg(kani)]
+mod c05;
 
 /// runner self-test: a harness that must FAIL and replay natively (never part of a property)
 #[cfg(kani)]
